@@ -139,9 +139,32 @@ def superset_D():
     return {"fluid": "water", "ops": ops}, flags, {"mode": "sequential"}
 
 
-SUPERSETS = {"A": superset_A, "B": superset_B, "C": superset_C, "D": superset_D}
-QUICK_K = {"A": 10, "B": 9, "C": 9, "D": 9}
-THOROUGH_K = {"A": 14, "B": 13, "C": 11, "D": 9}
+def superset_E(mode="sequential"):
+    """thermal supply: a part fed by a p-type ext grid is calculated hydraulically but has no temperature source"""
+    ops = [{"op": "junction", "id": "j%d" % i, "pn_bar": 5.0, "tfluid_k": 320.0} for i in range(7)]
+    ops += [
+        {"op": "ext_grid", "id": "egT", "junction": "j0", "p_bar": 5.0, "t_k": 350.0, "type": "pt"},
+        {"op": "ext_grid", "id": "egP", "junction": "j3", "p_bar": 5.0, "t_k": 300.0, "type": "p"},
+        {"op": "ext_grid", "id": "egT2", "junction": "j6", "p_bar": 5.0, "t_k": 330.0, "type": "pt"},
+        {"op": "pipe", "id": "p0", "from": "j0", "to": "j1", "length_km": 0.2, "d_mm": 50.0, "sections": 2, "u": 10.0},
+        {"op": "pipe", "id": "p1", "from": "j1", "to": "j2", "length_km": 0.2, "d_mm": 50.0, "sections": 1, "u": 10.0},
+        {"op": "pipe", "id": "p2", "from": "j3", "to": "j4", "length_km": 0.2, "d_mm": 50.0, "sections": 3, "u": 10.0},
+        {"op": "pipe", "id": "p3", "from": "j4", "to": "j5", "length_km": 0.2, "d_mm": 50.0, "sections": 1, "u": 10.0},
+        {"op": "valve", "id": "v0", "from": "j2", "to": "j4"},
+        {"op": "pipe", "id": "p4", "from": "j6", "to": "j5", "length_km": 0.3, "d_mm": 50.0, "sections": 2, "u": 10.0},
+        {"op": "sink", "id": "s2", "junction": "j2", "mdot": 0.2},
+        {"op": "sink", "id": "s5", "junction": "j5", "mdot": 0.15},
+        {"op": "sink", "id": "s4", "junction": "j4", "mdot": 0.05},
+    ]
+    flags = [("v0", "opened"), ("egT", "in_service"), ("egP", "in_service"), ("egT2", "in_service"), ("p0", "in_service"),
+             ("p2", "in_service"), ("p4", "in_service"), ("p1", "in_service"), ("p3", "in_service")]
+    return {"fluid": "water", "ops": ops}, flags, {"mode": mode}
+
+
+SUPERSETS = {"A": superset_A, "B": superset_B, "C": superset_C, "D": superset_D, "E": superset_E,
+             "F": lambda: superset_E("bidirectional")}
+QUICK_K = {"A": 10, "B": 9, "C": 9, "D": 9, "E": 7, "F": 7}
+THOROUGH_K = {"A": 14, "B": 13, "C": 11, "D": 9, "E": 9, "F": 9}
 CHUNK = 16
 
 
@@ -226,6 +249,9 @@ def run_pattern(sp0, flags, k, number, opts):
         else:
             st = row_state(net, table, idx)
             want = "full" if exp else "nan"
+            if exp and mode in ("sequential", "bidirectional") and not an["texpect"].get(eid, True):
+                # calculated hydraulically, but no temperature source reaches it: temperature columns stay NaN
+                want = "partial:t_from_k,t_to_k,t_outlet_k"
             if st != want:
                 tag = st if not st.startswith("partial") else "partial"
                 vs.append(viol("branch_results", "flags off %s: %s %s result row is %s, expected %s" % (
